@@ -322,6 +322,7 @@ func (d *drv) trace(id int, kind string, steps []step) {
 		d.r = common.TraceRand(d.a.Seed, id)
 	}
 	w.Now = d.baseNow
+	d.w.ColdCache() // see world.ColdCache
 	d.beginBlock(d.base)
 	d.rc.TraceID = id - 1
 	init := d.state(d.snap())
